@@ -137,20 +137,36 @@ PROPS["C20"] = {
                 "tree shape built by the real parseExpr vs the model, and verdict of binding's validator on run-time generated struct "
                 "types vs an independent precedence-climbing evaluator; 20 expression templates x every small value of the tagged field "
                 "(ints, floats, strings, bools, nil pointers, nil/empty/non-empty slices); random well-typed trees to depth 4 (6) printed "
-                "with minimal and with redundant parentheses and random spacing; random untyped trees; token soup and damaged expressions.",
+                "with minimal and with redundant parentheses and random spacing; random untyped trees; token soup and damaged expressions. "
+                "Many values of ONE run-time generated struct type through ONE validator (op vdm; fresh, configured or the process-wide default "
+                "validator, whose cache is carried from case to case): 2-5 values in sequence, one or two passes; 2-4 evaluations interleaved at a "
+                "scheduling point (a validator function vdpt() registered through ValidateConfig.MustRegValidateFunc, placed among the arguments of "
+                "in/len/regexp calls or beside them): each evaluation is suspended there while the next value is validated, then resumed in either "
+                "order; 4-16 goroutines validating their own value 400 (1000) times at once; expressions built around function calls and chosen so "
+                "that the values get different verdicts.",
         "exhaustive_note": "operator sequences up to the stated length and the template x value table are enumerated completely; the rest is sampled",
         "level_text": "Proved in Lean for all operand/operator sequences of any length and any operator semantics: the rotation of "
                       "sortPriority terminates, keeps the token order, never panics, and its result is the unique precedence tree "
                       "(documented priorities, left-to-right associativity) = the tree of an independent precedence parser; priority table, "
                       "operator lexer and the text of the three rotation functions regenerated from expr.go on every run. Lexer, coercions, "
                       "float64 arithmetic, len/in/regexp and the accept rule of validator.Validate are an executable Lean model compared with "
-                      "the real code on every case; the expected verdict comes from an independent evaluator in the harness.",
+                      "the real code on every case; the expected verdict comes from an independent evaluator in the harness. "
+                      "Proved for the model of the cached, shared compiled tree: a value's verdict is the same alone, in a batch compiled once "
+                      "(verdict_independent_of_batch) and after any history of validations on the same validator's per-type cache "
+                      "(verdict_independent_of_history); funcExprNode.Run taken in the Go code's steps (buffer allocated by the call, one argument per "
+                      "step, function body) and run for several values at once under any schedule gives each evaluation its own sequential answer "
+                      "(func_eval_schedule_independent, func_eval_completes), which is false when the buffer belongs to the node "
+                      "(node_owned_buffer_fails_at); the field list of funcExprNode and the body of its Run are regenerated from spec_func.go on every "
+                      "run (func_run_source_matches_gen).",
         "level_note": "Not proved: float64 arithmetic, strconv/fmt conversions and regexp (compared, on small values / a pattern subset); "
                       "absence of panics is proved for every operator node and every operand-node constructor (after the two repairs in /repo); "
                       "its lifting through the parser's recursion to whole expressions is open (TODO-OPEN in Props/C20.lean) and is covered by "
                       "the differential runs. One recorded finding: a nil-valued expression is accepted.",
         "assumptions": ["Go's float64, strconv.ParseFloat, fmt.Sprint and regexp are the reference for the compared residue",
-                        "reflect.StructOf types behave like declared struct types for the tag reader"],
+                        "reflect.StructOf types behave like declared struct types for the tag reader",
+                        "concurrent evaluations of one compiled tree are explored at the scheduling points vdpt() (deterministic) and by "
+                        "real parallel execution (sampled); the step model of concurrent evaluation covers function-call nodes only - "
+                        "operator, group, selector and regexp nodes are taken as atomic and stateless"],
         "timeout": {"quick": 300, "thorough": 2400},
         "trusted": ["independent expression evaluator in harness/c20.go (expected verdicts)"],
     }
@@ -164,13 +180,8 @@ PROPS["C08"] = {
                 "directory index pages; Compress with and without Accept-Encoding; missing files; an expiring file cache; random interleavings over "
                 "shared engines / cached files / pooled readers; ~50 listed + random traversal paths against the StaticFS routes. Direct calls: bytesconv.ParseUint (short strings "
                 "exhaustively, 64-bit boundary values, random 17-22 digit strings), app.ParseByteRange (same forms x lengths 0..12 and 14 huge lengths), "
-                "ResponseHeader.SetContentRange. Trees that change between requests (op fsseq, a fresh root and Engine per scenario): files replaced / "
-                "rolled back with older mtimes / deleted / re-created, .hertz.gz siblings planted older, same-time and newer than the file holding the "
-                "file's bytes, other bytes or no gzip stream at all, x known / unknown MIME extension x compressible / incompressible / big / empty "
-                "files x first request / handler restart / real CacheDuration expiry / cached, with gzip, plain, HEAD and Range requests in between; "
-                "1500 (12000) random scenarios over three names; the tree left behind is compared too.",
-        "exhaustive_note": "lengths x range forms x method x AcceptByteRange are enumerated completely up to the stated bounds; the sibling table "
-                           "(mtime relation x payload x route into openFSFile) is enumerated completely; the rest is sampled",
+                "ResponseHeader.SetContentRange.",
+        "exhaustive_note": "lengths x range forms x method x AcceptByteRange are enumerated completely up to the stated bounds; the rest is sampled",
         "level_text": "ParseUint (overflow test included), ParseByteRange, AppendUint, SetContentRange, both UpdateByteRange implementations and the "
                       "range part of fsHandler.handleRequest are modelled in Lean function by function (slices and indexes checked, AppendUint's panic "
                       "kept). Proved at full strength for all header values, file contents, lengths < 2^63, methods, reader kinds and AcceptByteRange "
@@ -180,28 +191,14 @@ PROPS["C08"] = {
                       "that slice, HEAD = GET headers without body, small/big/dir-index readers agree. Former defect witnesses (bytes=-1 on an empty "
                       "file, bytes=-0, the 20-digit wrap-around) are regression examples and replayed against the Go code on every run. Statement "
                       "skeletons of the seven Go functions are regenerated from source and pinned by model_matches_gen.",
-        "level_note": "The open path (openFSFile, compressAndOpenFSFile, compressFileNolock, both file caches) is modelled over an abstract tree "
-                      "(path -> payload, mtime, compressible; a compressed file is 'some gzip stream of these bytes') and proved, for all trees and paths: "
-                      "the file chosen is the requested file's own bytes (plain or as a gzip stream of exactly them) whatever an older or newer sibling "
-                      "holds, given only that a sibling with the file's own mtime is a gzip stream of it; a missing file is an error; nothing but the "
-                      "file's own sibling is changed, and the sibling left behind satisfies the assumption again; an uncached request opens the current "
-                      "tree; and for whole scenarios (any sequence of tree changes, sibling plants, cache flushes and requests that respects the mtime "
-                      "assumption): every request is answered from a file meaning a content the requested file had since the caches were last empty, 404 only "
-                      "if it was absent at such a moment (scenario_serves_a_version). "
-                      "The three Go functions' statement skeletons and the suffix are regenerated and pinned. "
-                      "Partial: reader ref-counts, the gzip encoder, directories / index page generation, If-Modified-Since and the OS are exercised by the "
+        "level_note": "Partial: open/stat/cache/ref-counts, compression, index page generation, If-Modified-Since and the OS are exercised by the "
                       "correspondence only; path containment is C07's theorem and is only exercised here, for StaticFS routes (ctx.File has no root). "
                       "Trusted: Lean kernel, gen/c08.go (go/ast statement skeletons), harness/driver.",
         "assumptions": ["file length is a Go int (< 2^63)",
                         "an invalid Range value (wrong unit, several ranges, last < first, non-digits) may be answered 416 instead of being ignored",
                         "a position >= 2^63 in a Range header may be answered 416",
                         "os.File.ReadAt/Seek and io.LimitedReader deliver the bytes of the file at the given offsets",
-                        "the harness is the oracle for which file a plain request path names",
-                        "two versions of one file with the same modification time have the same content, and a .hertz.gz sibling put into the tree "
-                        "from outside with the modification time of a version of the file is a gzip stream of that version (scenarios outside this "
-                        "assumption are compared with the model only)",
-                        "files under the root are replaced by rename, not rewritten in place, while the handler may hold them open",
-                        "within CacheDuration a cached descriptor may be served: an answer may carry any content the file had since the caches were last empty"],
+                        "the harness is the oracle for which file a plain request path names"],
         "timeout": {"quick": 300, "thorough": 1500},
     }
 
